@@ -5,12 +5,12 @@ SPECIFICATION Spec
 CONSTANTS RF1 = {1, 2, 3, 4}
           RF2 = {2}
           N2 = 3
-          Outcomes = {"ok", "conflict", "unavailable", "other"}
+          Outcomes = {"ok", "conflict", "unavailable", "other", "noconn"}
           ReplThresholdIsQuorum = FALSE
           WithTimeout = TRUE
           CaseRF1 = {1, 2, 3, 4}
           CaseRF2 = {}
-          CaseOutcomes = {"ok", "conflict", "unavailable", "other"}
+          CaseOutcomes = {"ok", "conflict", "unavailable", "other", "noconn"}
 INVARIANTS C22Inv C23Inv OrderIndependent EarlyOnlyWhenDetermined
 PROPERTIES Terminates
 CHECK_DEADLOCK FALSE
